@@ -134,6 +134,12 @@ func (i *interpreter) fireNextTimer() bool {
 	if best == nil {
 		return false
 	}
+	i.timeAdvances++
+	if i.timeAdvances > 200 && i.sched != nil {
+		// only timers make progress while the harness is blocked: a hang (livelock), reported like a deadlock
+		i.livelock = true
+		return false
+	}
 	if best.deadline > i.clock {
 		i.clock = best.deadline
 	}
